@@ -58,6 +58,7 @@ type Clause struct {
 	Text  string
 	Expr  CExpr
 	Name  string // optional label
+	Opt   string // atcall: callee name
 	Line  int
 	File  string
 }
@@ -219,6 +220,20 @@ func parseContractFile(path, pkgPath string) (*ContractFile, error) {
 			if kw == "pure" {
 				c.Text = "true"
 			}
+			lastCl = c
+			lastSp = nil
+			pending = append(pending, c)
+			cur.Clauses = append(cur.Clauses, c)
+		case "atcall":
+			// atcall <callee> assert <expr>: obligation at every call of <callee> in this function (arg0.. = arguments)
+			callee, r2 := splitWord(rest)
+			kw, r3 := splitWord(r2)
+			if cur == nil || kw != "assert" {
+				return nil, fmt.Errorf("%s:%d: expected 'atcall <callee> assert <expr>'", path, ln+1)
+			}
+			c := &Clause{Kind: "atcall", Line: ln + 1, File: path}
+			c.Props, c.Name, c.Text = clauseTags(r3)
+			c.Opt = callee
 			lastCl = c
 			lastSp = nil
 			pending = append(pending, c)
